@@ -20,7 +20,9 @@ vars == <<l, nbad>>
 
 (* a failed check is reported and validation continues with the next event, so that one  *)
 (* run reports every rejected event (the runner classifies them); Chk is TRUE iff cond.  *)
-Chk(cond, msg) == IF cond THEN TRUE ELSE (PrintT(<<"REJECT", l, Rec[l].id, msg>>) /\ FALSE)
+(* The REJECT line holds scalars only, so TLC prints it on one line; details follow.       *)
+Chk(cond, msg) == IF cond THEN TRUE
+                  ELSE (PrintT(<<"REJECT", l, Rec[l].id>>) /\ PrintT(<<"DETAIL", l, msg>>) /\ FALSE)
 
 UsesOk(e, sch, IsUsed(_), IsUsedList(_)) ==
   \A i \in 1..Len(e.uses) :
@@ -36,7 +38,7 @@ CheckFilter(e) ==
   IN /\ Chk(e.out # "panic", "parse panicked")
      /\ Chk(r.ok = e.ok, <<"parse verdict: spec says ok =", r.ok>>)
      /\ r.ok =>
-          /\ Chk(AstJson(r.node) = e.ast, <<"ast json, expected", AstJson(r.node)>>)
+          /\ Chk(e.ast = [c |-> "deep"] \/ AstJson(r.node) = e.ast, <<"ast json, expected", AstJson(r.node)>>)
           /\ Chk(NestLogical(r.node) <= e.max, "nesting above the limit accepted")
           /\ UsesOk(e, sch, LAMBDA f : UsesLogical(r.node, f), LAMBDA f : UsesListLogical(r.node, f))
           /\ \A i \in 1..Len(e.runs) :
@@ -60,11 +62,37 @@ CheckValue(e) ==
                /\ Chk(run.res.t = x.t /\ run.res = x,
                       <<"value on ctx", run.ctx, "expected", x, "observed", run.res>>)
 
+(* C07: alias / white-space variants of one token sequence, and a structurally different partner *)
+CheckCanon(e) ==
+  LET sch == Schs[e.sch]
+      r  == ParseFilter(e.ts, sch, e.max)
+      r2 == ParseFilter(e.ts2, sch, e.max)
+      v1 == e.vars[1]
+  IN /\ \A i \in 1..Len(e.vars) :
+          LET v == e.vars[i] IN
+          /\ Chk(v.out # "panic", <<"variant panicked", i>>)
+          /\ Chk(v.ok = r.ok, <<"variant verdict", i, "spec says ok =", r.ok>>)
+          /\ (r.ok /\ v.ok) =>
+                /\ Chk(v.ast = AstJson(r.node), <<"variant ast json", i>>)
+                /\ Chk(v.jsontext = v1.jsontext, <<"variant serializes differently", i>>)
+                /\ Chk(v.hash = v1.hash, <<"variant hashes differently", i>>)
+                /\ Chk(v.eq, <<"variant AST not equal to the first", i>>)
+                /\ Chk(v.stable, <<"re-serialization differs", i>>)
+     /\ Chk(e.other.out # "panic", "partner panicked")
+     /\ Chk(e.other.ok = r2.ok, <<"partner verdict: spec says ok =", r2.ok>>)
+     /\ (r2.ok /\ e.other.ok) => Chk(e.other.ast = AstJson(r2.node), "partner ast json")
+     /\ (r.ok /\ r2.ok /\ v1.ok /\ e.other.ok) =>
+           LET same == AstJson(r.node) = AstJson(r2.node) IN
+           /\ Chk(same <=> (e.other.jsontext = v1.jsontext),
+                  <<"structurally different filters must serialize differently; same structure =", same>>)
+           /\ Chk(e.eq12 => (same /\ e.other.hash = v1.hash), "equal ASTs must have equal JSON and hash")
+
 Init == l = 1 /\ nbad = 0
 Next == /\ l <= Len(Rec)
         /\ LET e == Rec[l]
                good == IF e.ev = "filter" THEN CheckFilter(e)
                        ELSE IF e.ev = "value" THEN CheckValue(e)
+                       ELSE IF e.ev = "canon" THEN CheckCanon(e)
                        ELSE Chk(FALSE, "unknown event")
            IN nbad' = IF good THEN nbad ELSE nbad + 1
         /\ l' = l + 1
